@@ -335,6 +335,33 @@ def container_bytes(c):
     return bytes(b)
 
 
+# ----------------------------------------------------------------------------- text fields of the Roland ID area
+# the image-type test matches the fixed-width text fields of the first sector against regular expressions: every field filled
+# with "a valid beginning + a run of one short pattern" (what makes a backtracking matcher work hardest), cut to the field
+ID_FIELDS = {"s7xx": (4, 10, ["", "S7", "S770 ", "S770 MR"]), "empty": (16, 15, [""]),
+             "version": (32, 31, ["", "S-7", "S-770 ", "S-770 Hard ", "S-770 Hard Disk ", "S-770 Hard Disk Ver", "S-770 CD-ROM Sound "]),
+             "copyright": (64, 31, ["", "Copy", "Copyright "])}
+ID_FILLS = ["a", "a-", "a ", "-", " ", "a-a ", "aB", "1.", "Disk", "Ver", "S-7", ".", "_", "a--", "a  ", "Z9", "\t", "^_`"]
+
+
+def idtext_cases():
+    out = []
+    for field, (off, width, prefixes) in ID_FIELDS.items():
+        for prefix in prefixes:
+            for fill in ID_FILLS:
+                for last in ("", "!"):
+                    out.append({"what": "idtext", "field": field, "prefix": prefix, "fill": fill, "last": last})
+    return out
+
+
+def idtext_bytes(c):
+    off, width, _ = ID_FIELDS[c["field"]]
+    text = (c["prefix"] + c["fill"] * width)[:width - len(c["last"])] + c["last"]
+    b = bytearray(subject("roland")[0])
+    b[off:off + width] = text.encode("ascii")
+    return bytes(b)
+
+
 # ----------------------------------------------------------------------------- growth of the work with the input size
 SCALE_FAMILIES = ["cdda_same_title", "cdda_distinct", "akai_same_name", "akai_distinct", "akai_chain", "akai_pairs", "akai_volumes",
                   "roland_same_name", "roland_distinct", "cue_rem_lines", "roland_fat_down", "roland_fat_zigzag", "akai_volume_pairs"]
@@ -486,7 +513,7 @@ class Check(CheckBase):
             "used FAT word (+2 beyond) <- {free, reserved, error, end marks, every used cluster, itself, 7, 8, 65526, 65527, "
             "65535}, FAT id/version, the five ID-area counts, pointer-list entries of volume/performance/patch/partial, sample "
             "fat_entry/type/loop points/loop mode/cluster_top/options; (cue) every line deleted / duplicated / replaced by 10 "
-            "hostile lines and by 70 regular-expression stress lines (keyword + unterminated quote/number list + 40 x one character), "
+            "hostile lines and by 70 regular-expression stress lines; the four text fields of the Roland ID area (model, blank, version, copyright) filled with 15 valid beginnings x 18 short patterns repeated to the field's width (540 images through ls + export); cue lines also by 70 regular-expression stress lines (keyword + unterminated quote/number list + 40 x one character), "
             "bin missing or empty, 15 framings of the unchanged lines (leading / trailing blank and whitespace-only lines, no final "
             "newline, CR LF / bare CR, NUL, form feed, blank lines between all lines); (bigtext) 8 text files of 1-3 MB with 6 000 .. 1 500 000 short lines (comment, blank, TRACK/INDEX/TITLE, "
             "non-ASCII, CR LF); (containers) MDX header length field x 15 values (0 .. real+-1 .. 2^64-1) x 5 payloads, damaged MDX "
@@ -533,6 +560,8 @@ class Check(CheckBase):
         multi += [[a, b, c] for a in fa for b in nk for c in lk]
         out += [{"kind": "faults", "subject": "akai", "cases": multi[i:i + 60]} for i in range(0, len(multi), 60)]
         out.append({"kind": "containers"})
+        idc = idtext_cases()
+        out += [{"kind": "idtext", "cases": idc[i:i + 36]} for i in range(0, len(idc), 36)]
         for c in bigtext_cases():
             out.append({"kind": "bigtext", "case": c})
         for fam in SCALE_FAMILIES:
@@ -571,6 +600,8 @@ class Check(CheckBase):
                 ok, klass, detail = run_bytes(container_bytes(c))
             elif c["kind"] == "bigtext":
                 ok, klass, detail = run_bigtext(c)
+            elif c["kind"] == "idtext":
+                ok, klass, detail = run_bytes(idtext_bytes(c))
             else:
                 ok, klass, detail = run_bytes(apply_faults(c["subject"], c["faults"]))
             rep.case(c, ok=ok, klass=klass, detail=detail, sig=f"{c['kind']}:{klass}")
@@ -584,6 +615,14 @@ class Check(CheckBase):
             for c in container_cases():
                 ok, klass, detail = run_bytes(container_bytes(c))
                 rep.case(dict(c, kind="container"), ok=ok, klass=klass, nontrivial=True, detail=detail, sig="container:" + klass + ":" + c["what"])
+        elif kind == "idtext":
+            for c in shard["cases"]:
+                ok, klass, detail = run_bytes(idtext_bytes(c))
+                rep.case(dict(c, kind="idtext"), ok=ok, klass=klass, nontrivial=True, detail=detail, sig="idtext:" + klass + ":" + c["field"])
+                if not ok:
+                    hangs += 1
+                    if hangs >= 3:
+                        break
         elif kind == "scaling":
             ok, klass, detail = run_scaling(shard)
             rep.case({"kind": "scaling", "family": shard["family"], "n": shard["n"]}, ok=ok, klass=klass, nontrivial=True, detail=detail,
